@@ -34,7 +34,8 @@ FAILS = ("desc_int", "config_bogus", "trs_from_bad_ns", "tract_bad_trs",
          "config_good_then_bogus", "desc_config_good_then_bogus",
          "desc_deep_depth_type", "desc_bad_default_ns_kw",
          "tract_parse_bad_depth", "parse_tracts_bad_kw", "csv_bad_fp",
-         "set_twprgesec_bad_ew")
+         "set_twprgesec_bad_ew", "ocr_parse_bad_ns", "segment_parse_bad_ns",
+         "colon_required_crash")
 
 
 # --------------------------------------------------------------------------
@@ -104,9 +105,14 @@ def gen_probe_op(rng, trs_pool=None):
     if r < 0.88:
         return {"p": "find_sec", "text": corpus.gen_desc(rng)}
     if r < 0.93:
-        return {"p": "trslist",
-                "items": [rng.choice(trs_pool) for _ in range(rng.randint(1, 5))],
-                "then": rng.choice(("sort", "dups", "group", "contains"))}
+        items = [rng.choice(trs_pool) if rng.random() < 0.6
+                 else corpus.gen_trs_string(rng)
+                 for _ in range(rng.randint(1, 6))]
+        return {"p": "trslist", "items": items,
+                "key": rng.choice(("s,r,t", "s", "t,r", "s.rev", "r.ew,t.ns",
+                                   "t.sn", "r.we")),
+                "then": rng.choice(("sort", "sort", "dups", "group",
+                                    "contains", "group_sorted"))}
     if r < 0.97:
         return {"p": "tractlist",
                 "texts": [corpus.gen_desc(rng) for _ in range(rng.randint(1, 2))],
@@ -159,6 +165,32 @@ def _perturb(rng, op):
     if op["p"] in ("tract_from", "trs_from", "tract_set"):
         op["kw"] = rng.choice(({}, {"default_ns": "s"}, {"default_ew": "e"},
                                {"default_ns": "s", "default_ew": "e"}))
+    return op
+
+
+STRAY = ("Being the following described lands: ", "All of the following: ",
+         "", "", "")
+
+
+def _same_settings(rng, op):
+    """The probe's settings (config, keywords) applied to another text."""
+    op = copy.deepcopy(op)
+    if "text" in op and op["p"] in ("desc", "desc_wait", "desc_pt", "deduce",
+                                    "find_twprge", "find_sec", "sort_i"):
+        op["text"] = rng.choice(STRAY) + corpus.gen_desc(rng) + rng.choice(
+            ("", "", " and all other lands of the grantor"))
+    elif "text" in op:
+        op["text"] = corpus.gen_block(rng)
+    if "s" in op:
+        op["s"] = corpus.gen_trs_string(rng)
+    if "trs" in op and isinstance(op["trs"], str):
+        op["trs"] = corpus.gen_trs_string(rng)
+    if "items" in op:
+        op["items"] = [corpus.gen_trs_string(rng) for _ in op["items"]]
+    if "texts" in op:
+        op["texts"] = [corpus.gen_desc(rng) for _ in op["texts"]]
+    if "tw" in op:
+        op["tw"] = _gen_tw(rng)
     return op
 
 
@@ -276,7 +308,11 @@ def gen_plan(rng):
                 # the probe's own text / strings under OTHER settings
                 prior.append({"o": "other",
                               "probe": _perturb(rng, rng.choice(probe))})
-            elif r_ < 0.40:
+            elif r_ < 0.50:
+                # a batch job: the probe's own settings, another text
+                prior.append({"o": "other",
+                              "probe": _same_settings(rng, rng.choice(probe))})
+            elif r_ < 0.54:
                 # many objects; for Tracts: up to just below a round value
                 # of the process-wide creation counter, so that the probe's
                 # own tracts straddle it
@@ -447,8 +483,10 @@ def _run_probe_op(pytrs, op, hooks=None):
         tl = pytrs.TRSList(op["items"])
         then = op["then"]
         if then == "sort":
-            tl.custom_sort("s,r,t")
+            tl.custom_sort(op.get("key", "s,r,t"))
             return enc(tl), tl
+        if then == "group_sorted":
+            return enc(tl.group_by("twprge", sort_key=op.get("key", "s"))), tl
         if then == "dups":
             return [enc(tl.filter_duplicates()), enc(tl)], tl
         if then == "group":
@@ -642,6 +680,19 @@ def _do_fail(pytrs, what):
     elif what == "csv_bad_fp":
         pytrs.PLSSDesc("T154N-R97W Sec 14: NE/4").tracts_to_csv(
             ["trs"], "", "w")
+    elif what == "ocr_parse_bad_ns":
+        d = pytrs.PLSSDesc("TI54-R97 Sec 14: NE/4\nT155-R97 Sec 15: W/2",
+                           config="ocr_scrub", wait_to_parse=True)
+        d.parse(default_ns="north")
+    elif what == "segment_parse_bad_ns":
+        d = pytrs.PLSSDesc("Being the lands: T154-R97 Sec 14: NE/4\n"
+                           "T155-R97 W/2 of Section 15 and others",
+                           config="segment,sec_within", wait_to_parse=True)
+        d.parse(default_ew="east")
+    elif what == "colon_required_crash":
+        # a known crash of the pinned tree (C03's business): a natural
+        # "earlier call that raised half-way"
+        pytrs.PLSSDesc("T154N-R97W Section 14 NE/4", config="sec_colon_required")
     elif what == "set_twprgesec_bad_ew":
         pytrs.Tract("NE/4", config="s").set_twprgesec(1, 2, 3, default_ew="q")
 
